@@ -6,6 +6,7 @@ import (
 	"strings"
 
 	"gldapverif/an"
+	"gldapverif/report"
 
 	"golang.org/x/tools/go/ssa"
 )
@@ -323,6 +324,23 @@ func checkC04(c *Ctx) {
 		if n != 1 {
 			R.Fail("C04-write", "(*ResponseWriter).Write: one write", c.P.Pos(write.Pos()), sprintf("%d writer.Write calls", n))
 		}
+	}
+
+	// ---- C04-write-flushed: "arrives at the client" needs the frame to be flushed by the same Write (rules of C05)
+	{
+		tmp := &Ctx{P: c.P, R: report.New("tmp"), Tier: c.Tier}
+		checkC05(tmp)
+		for _, o := range tmp.R.Obls {
+			if o.Rule == "C05-oneframe" {
+				switch o.Status {
+				case report.Discharged:
+					R.OK("C04-write-flushed", o.Construct, o.Pos, o.Detail)
+				default:
+					R.Fail("C04-write-flushed", o.Construct, o.Pos, o.Detail)
+				}
+			}
+		}
+		R.Floor("C04-write-flushed", 2)
 	}
 
 	// ---- C04-newinteger
